@@ -1,6 +1,7 @@
 import OnetVerif.Model.C20
 import OnetVerif.Proofs.C20Spec
 import OnetVerif.Proofs.C20Lemmas
+import OnetVerif.Proofs.C20IPv4
 /-! Property C20 — address parsing is total and self-consistent.
 
 The property theorems, the negation witness for the code before the repair and non-vacuity
@@ -12,8 +13,8 @@ namespace C20
 /-! ### valid ⇔ the independent parse -/
 
 /-- **an address is valid exactly when it is in the independent grammar**: a known connection
-type, the separator (once), and a host:port whose host is empty, an IP address or a well-formed
-host name and whose port is in range. -/
+type, the separator (once), and a host:port whose host is empty, an IPv4 literal `a.b.c.d` (independent grammar), an IPv6
+literal or a well-formed host name and whose port is in range. -/
 theorem c20_valid_iff_spec (a : Str) : valid a = true ↔ Spec a := by
   rw [valid_iff_parts]
   constructor
@@ -23,17 +24,29 @@ theorem c20_valid_iff_spec (a : Str) : valid a = true ↔ Spec a := by
       atoi_port_iff.mp ⟨v, hat, hr⟩, ?_⟩
     rcases hh with hh | hh | hh
     · exact Or.inl hh
-    · exact Or.inr (Or.inl hh)
-    · exact Or.inr (Or.inr (validHostname_iff.mp hh))
+    · rcases (parseIP_iff h).mp hh with h4 | h6
+      · exact Or.inr (Or.inl h4)
+      · exact Or.inr (Or.inr (Or.inl h6))
+    · exact Or.inr (Or.inr (Or.inr (validHostname_iff.mp hh)))
   · rintro ⟨t, na, h, p, ⟨ha, ht, hns, hhp⟩, hport, hh⟩
     obtain ⟨v, hat, hr⟩ := atoi_port_iff.mpr hport
     refine ⟨t, na, h, p, v, ?_, connTypeOf_known.mpr ht, shp_iff.mpr hhp, hat, hr, ?_⟩
     · rw [ha]
       exact split_two.mpr ⟨cut_append (cut_known ht), cut_none_of_not_infix hns⟩
-    · rcases hh with hh | hh | hh
+    · rcases hh with hh | hh | hh | hh
       · exact Or.inl hh
-      · exact Or.inr (Or.inl hh)
+      · exact Or.inr (Or.inl ((parseIP_iff h).mpr (Or.inl hh)))
+      · exact Or.inr (Or.inl ((parseIP_iff h).mpr (Or.inr hh)))
       · exact Or.inr (Or.inr (validHostname_iff.mpr hh))
+
+/-- **`net.ParseIP` accepts a dot-first string exactly when it is a dotted quad of the independent
+grammar** (four fields of 1..3 digits, value ≤ 255, no leading zero), and accepts a string at all
+exactly when it is such an IPv4 literal or an IPv6 literal (colon-first, accepted by the shared
+transcription of `netip.parseIPv6`).  Proof: loop invariant of `parseIPv4Fields` over arbitrary
+strings, `Proofs/C20IPv4.lean`. -/
+theorem c20_parseIP_grammar (s : Str) :
+    (parseIPv4 s = true ↔ IPv4 s) ∧ (parseIP s = true ↔ (IPv4 s ∨ IPv6Lit s)) :=
+  ⟨parseIPv4_iff s, parseIP_iff s⟩
 
 /-- the parse of an address is unique: type, network address, host and port are functions of it -/
 theorem c20_parse_unique {a t na h p t' na' h' p' : Str}
@@ -372,6 +385,11 @@ example : getListenAddress [116, 99, 112, 58, 47, 47, 49, 46, 50, 46, 51, 46, 52
     = .ok [104, 58, 56, 48] := by decide
 example : getListenAddress [116, 99, 112, 58, 47, 47, 49, 46, 50, 46, 51, 46, 52, 58, 56, 48] [91]
     = .err := by decide
+
+/-- `10.0.0.1` is an IPv4 literal of the grammar, `010.0.0.1` and `256.0.0.1` are rejected by the code -/
+example : IPv4 [49, 48, 46, 48, 46, 48, 46, 49] := (parseIPv4_iff _).mp (by decide)
+example : parseIP [48, 49, 48, 46, 48, 46, 48, 46, 49] = false ∧ parseIP [50, 53, 54, 46, 48, 46, 48, 46, 49] = false := by
+  decide
 
 /-- `tcp://a:b:1` and `udp://1.2.3.4:80` are invalid -/
 example : valid [116, 99, 112, 58, 47, 47, 97, 58, 98, 58, 49] = false := by decide
